@@ -220,6 +220,11 @@ def _scope_functions(prog, pp):
     for cq in ("environment.Environment", "environment.VarLookupDict"):
         cls = prog.cls(cq)
         fns |= {m.qual for m in cls.methods.values() if m.name != "__init__"}
+    # looking at a result (printing, indexing, converting) must not change it or the design it came from: every method of the
+    # matrix containers is in scope as well
+    for cq in ("matrices.DesignMatrices", "matrices.ResponseMatrix", "matrices.CommonEffectsMatrix", "matrices.GroupEffectsMatrix"):
+        cls = prog.cls(cq)
+        fns |= {m.qual for m in cls.methods.values() if m.name != "__init__"}
     return {q for q in fns if q in prog.functions and prog.functions[q].parent is None}
 
 
@@ -292,6 +297,14 @@ def _is_constant_table(v):
             all(isinstance(x, (ast.Constant, ast.Name, ast.Attribute, ast.Tuple, ast.List)) for x in v.values)
     if isinstance(v, (ast.List, ast.Set, ast.Tuple)):
         return bool(v.elts) and all(isinstance(x, (ast.Constant, ast.Name, ast.Attribute, ast.Tuple)) for x in v.elts)
+    # a table derived from other tables when the module / class is created: {k: i for i, ks in enumerate(LEVELS, 1) for k in ks},
+    # dict(zip(KEYS, VALUES)), {**A, **B}: it is filled once with constants; any later writer would be reported separately
+    if isinstance(v, (ast.DictComp, ast.ListComp, ast.SetComp)):
+        free_calls = [dotted(c.func) for c in ast.walk(v) if isinstance(c, ast.Call)]
+        return all(d in ("enumerate", "zip", "range", "len", "sorted", "reversed", "str", "tuple", "list", "dict.items", "dict.keys") or
+                   (d or "").endswith((".items", ".keys", ".values")) for d in free_calls)
+    if isinstance(v, ast.Call) and dotted(v.func) == "dict" and len(v.args) == 1 and isinstance(v.args[0], ast.Call) and dotted(v.args[0].func) == "zip":
+        return True
     return False
 
 
